@@ -296,6 +296,9 @@ def cxx_build(name, sources, flags=None, libs=None, tag="std", compiler=None):
     """Build executable build/bin/<tag>/<name> from harness sources and /repo sources.
     Returns (exe or None, error text).  Compiles TUs in parallel."""
     from concurrent.futures import ThreadPoolExecutor
+    if os.path.realpath(REPO) != os.path.realpath("/repo"):
+        # a scratch checkout gets its own object/binary directory: runs against different trees never share files
+        tag = tag + "_" + hashlib.sha256(os.path.realpath(REPO).encode()).hexdigest()[:8]
     flags = list(CXXFLAGS if flags is None else flags)
     libs = list(LIBS if libs is None else libs)
     bd = os.path.join(BUILD, "bin", tag); os.makedirs(bd, exist_ok=True)
